@@ -15,7 +15,7 @@ LEVEL_TEXT = ("Static structural proof of necessary conditions: (R10.1) every in
               "validator's constructor; (R10.3) the temporal rules are registered as TEMPORAL_TAG_ERROR and reachable "
               "from BaseInput.validate. The transition semantics over histories, equal-onset merging and Delay "
               "shifting are NOT decided.")
-LEVEL_EXTRA = 'Added after the seeded evaluation: (R10.4) every Delay-shifted group is appended under an index computed afresh for that group; (R10.5) already-failed rows are skipped by original_index. (R10.6) rows are ordered by onset with a stable sort. (R10.7) an open scope is closed only under an Offset test; (R10.8) a NaN onset leaves the grouping loop before any ordering comparison.'
+LEVEL_EXTRA = 'Added after the seeded evaluation: (R10.4) every Delay-shifted group is appended under an index computed afresh for that group; (R10.5) already-failed rows are skipped by original_index. (R10.6) rows are ordered by onset with a stable sort. (R10.7) an open scope is closed only under an Offset test; (R10.8) a NaN onset leaves the grouping loop before any ordering comparison. (R10.9) the Duration/Delay check skips groups anchored by any temporal key; (R10.10) no join over a de-duplicated collection of row texts.'
 
 ROWS = [{"key": "TemporalErrors." + k, "code": "TEMPORAL_TAG_ERROR"} for k in (
     "OFFSET_BEFORE_ONSET", "INSET_BEFORE_ONSET", "ONSET_SAME_DEFS_ONE_ROW", "TEMPORAL_TAG_NO_TIME",
@@ -228,6 +228,34 @@ def run(ctx):
         ctx.check(g is not None and g[1] is False, "R10.8", ido.qualname, c.ast, loc(ido, c.ast),
                   "a NaN onset reaches the tolerance comparison, which is false for NaN: the row without a time is appended to the "
                   "current time point, so its Onset/Offset markers act at the last timed row", desc="NaN onsets skipped before the comparison")
+
+    # ---------------- R10.9: the Duration/Delay check steps aside for every temporal marker
+    ctx.rule("R10.9", "validate_duration_tags skips groups anchored by any member of DefTagNames.TEMPORAL_KEYS")
+    vdt = prog.find_class("GroupValidator").methods.get("validate_duration_tags")
+    dtn = prog.find_class("DefTagNames")
+    if vdt is None:
+        raise AnalysisError("anchor GroupValidator.validate_duration_tags vanished")
+    ctx.saw(vdt)
+    tk = dtn.assigns.get("TEMPORAL_KEYS") if hasattr(dtn, "assigns") else None
+    members = set()
+    for st in dtn.node.body:
+        if isinstance(st, ast.Assign) and any(isinstance(t, ast.Name) and t.id == "TEMPORAL_KEYS" for t in st.targets):
+            members = {x.id for x in ast.walk(st.value) if isinstance(x, ast.Name)}
+    if len(members) < 3:
+        raise AnalysisError("R10.9: DefTagNames.TEMPORAL_KEYS is no longer a display of at least three key names")
+    v109 = view(ctx, vdt)
+    skips = [c for c in v109.conds(lambda t: "DefTagNames." in norm(t)) if "continue" in v109.leaves(c, True) or "continue" in v109.leaves(c, False)]
+    ctx.floor("R10.9", "temporal-marker skip tests in validate_duration_tags", len(skips), 1)
+    for c in skips:
+        used = {x.attr for x in ast.walk(c.ast) if isinstance(x, ast.Attribute) and norm(x.value).endswith("DefTagNames")}
+        ok = "TEMPORAL_KEYS" in used or members <= used
+        ctx.check(ok, "R10.9", vdt.qualname, c.ast, loc(vdt, c.ast),
+                  "the skip names %s but not every temporal marker (%s): a group anchored by the missing one (e.g. a delayed Inset) is "
+                  "checked as a Duration/Delay group and reported" % (sorted(used), sorted(members)), desc="skip covers all temporal keys")
+
+    # ---------------- R10.10: rows that share a time point are all kept when their texts are joined
+    from rules.c20 import join_dedupe_rule
+    join_dedupe_rule(ctx, "R10.10", ("hed.models.df_util",), 1)
 
 
 def delay_split_rule(ctx, rule):
